@@ -12,6 +12,8 @@ pub struct Op {
     pub ct: u8,
     pub ver: u16,
     pub data: Vec<u8>,
+    /// the `len` field of the record header handed to the parser (None: the length of `data`, what parse_tls_raw_record produces)
+    pub hlen: Option<u16>,
 }
 
 pub fn op_of(v: &Value) -> Op {
@@ -20,6 +22,7 @@ pub fn op_of(v: &Value) -> Op {
         ct: v["ct"].as_u64().unwrap_or(0) as u8,
         ver: v["ver"].as_u64().unwrap_or(0) as u16,
         data: crate::bytes_of(&v["data"]),
+        hlen: v.get("hlen").and_then(|x| x.as_u64()).map(|x| x as u16),
     }
 }
 
@@ -31,7 +34,7 @@ pub fn apply(p: &mut TlsRecordsParser, op: &Op) -> Value {
                       "buflen": p.verif_defrag_buffer().len(), "alloc": 0, "fmt_panic": "", "rem_ok": true});
     }
     let rec = TlsRawRecord {
-        hdr: TlsRecordHeader { record_type: TlsRecordType(op.ct), version: TlsVersion(op.ver), len: op.data.len() as u16 },
+        hdr: TlsRecordHeader { record_type: TlsRecordType(op.ct), version: TlsVersion(op.ver), len: op.hlen.unwrap_or(op.data.len() as u16) },
         data: &op.data,
     };
     let was_inprog = p.defrag_in_progress();
@@ -120,7 +123,26 @@ pub fn cmd_defrag(args: &[String]) -> i32 {
                 n += 1;
             }
         }
-        writeln!(out, "{}", json!({"id": c["id"], "results": results})).unwrap();
+        // a TlsRawRecord is (header, data) and the defragmenter works on the DATA: the same history with other values in the header's
+        // length field (0, 65535; heartbeat records excepted - their one-shot parser reads that field) gives the same answers
+        let mut hlen_diff = Value::Null;
+        if seq && !results.iter().any(|x| x["res"]["k"] == "panic") {
+            'variants: for h in [0u16, 65535] {
+                let mut p = TlsRecordsParser::default();
+                for (k, o) in prefix.iter().chain(tests.iter()).enumerate() {
+                    let o2 = Op { op: o.op.clone(), ct: o.ct, ver: o.ver, data: o.data.clone(), hlen: if o.ct == 24 { o.hlen } else { Some(h) } };
+                    let x = apply(&mut p, &o2);
+                    let same = x["res"]["k"] == results[k]["res"]["k"] && x["res"]["e"] == results[k]["res"]["e"] && x["res"]["p"] == results[k]["res"]["p"]
+                        && x["res"]["v"] == results[k]["res"]["v"] && x["inprog"] == results[k]["inprog"] && x["buflen"] == results[k]["buflen"];
+                    if !same {
+                        hlen_diff = json!({"header_len": h, "step": k, "with_data_len": results[k]["res"], "with_other_len": x["res"], "inprog": x["inprog"]});
+                        break 'variants;
+                    }
+                }
+            }
+        }
+        if hlen_diff.is_null() { writeln!(out, "{}", json!({"id": c["id"], "results": results})).unwrap(); }
+        else { writeln!(out, "{}", json!({"id": c["id"], "results": results, "hlen_diff": hlen_diff})).unwrap(); }
     }
     out.flush().unwrap();
     eprintln!("defrag: {} steps", n);
@@ -167,13 +189,13 @@ pub fn cmd_defrag_fuzz(args: &[String]) -> i32 {
         while ops.len() < nops {
             let o = if !pending.is_empty() && r.chance(7, 10) {
                 let (ct, d) = pending.remove(0);
-                Op { op: "parse_record".into(), ct, ver: 0x0303, data: d }
+                Op { op: "parse_record".into(), ct, ver: 0x0303, data: d, hlen: None }
             } else {
                 match r.below(12) {
-                    0 => Op { op: "reset".into(), ct: 0, ver: 0, data: vec![] },
-                    1 => { let (ct, d) = pool[r.below(pool.len())].clone(); Op { op: "nocopy".into(), ct, ver: 0x0301, data: d } }
-                    2 => Op { op: "parse_record".into(), ct: [20u8, 21, 23, 24, 99][r.below(5)], ver: 0x0303, data: crate::fuzz::random_bytes(&mut r, 6) },
-                    3 => Op { op: "parse_record".into(), ct: [22u8, 24][r.below(2)], ver: 0x0303, data: vec![] },
+                    0 => Op { op: "reset".into(), ct: 0, ver: 0, data: vec![], hlen: None },
+                    1 => { let (ct, d) = pool[r.below(pool.len())].clone(); Op { op: "nocopy".into(), ct, ver: 0x0301, data: d, hlen: None } }
+                    2 => Op { op: "parse_record".into(), ct: [20u8, 21, 23, 24, 99][r.below(5)], ver: 0x0303, data: crate::fuzz::random_bytes(&mut r, 6), hlen: None },
+                    3 => Op { op: "parse_record".into(), ct: [22u8, 24][r.below(2)], ver: 0x0303, data: vec![], hlen: None },
                     _ => {
                         // split a payload into 1..4 fragments at random cut points
                         let (ct, d) = pool[r.below(pool.len())].clone();
@@ -185,7 +207,7 @@ pub fn cmd_defrag_fuzz(args: &[String]) -> i32 {
                         for c in cuts { pending.push((ct, d[prev..c].to_vec())); prev = c; }
                         pending.push((ct, d[prev..].to_vec()));
                         let (ct, d0) = pending.remove(0);
-                        Op { op: "parse_record".into(), ct, ver: 0x0303, data: d0 }
+                        Op { op: "parse_record".into(), ct, ver: 0x0303, data: d0, hlen: None }
                     }
                 }
             };
@@ -237,7 +259,7 @@ pub fn cmd_defrag_stream(args: &[String]) -> i32 {
     let mut p = TlsRecordsParser::default();
     let mut n = 0;
     let mut emit = |p: &mut TlsRecordsParser, op: &str, ct: u8, data: Vec<u8>, out: &mut BufWriter<std::fs::File>| -> String {
-        let o = Op { op: op.to_string(), ct, ver: 0x0303, data };
+        let o = Op { op: op.to_string(), ct, ver: 0x0303, data, hlen: None };
         let r = apply(p, &o);
         let k = r["res"]["k"].as_str().unwrap_or("").to_string();
         // decl: the total size (header included) the record's first handshake message declares, when the record starts with a header
